@@ -177,6 +177,9 @@ func runC06(c *Ctx) {
 		// ... and Store.UnspentOutputs really carries those two exclusions in both of its passes (findEligibleOutputs has
 		// no lease / unconfirmed-spender filter of its own): the shared spendability-pass rule, from this property's side
 		checkSpendPasses(c, "C06-R1", false)
+		// "spent by an unconfirmed transaction" is read from the unconfirmed-spender index: it answers truthfully only if
+		// every input of every recorded unconfirmed transaction is entered there and leaves with it (shared with C01-R5)
+		checkConflictRemoval(c, "C06-R1")
 		// "confirmed the requested number of times" is judged from the heights the store records; they are those of the
 		// current chain only if a disconnected block's transactions leave it together with the tip stamp (shared with C15-R1)
 		checkCoupledRollback(c, "C06-R1")
@@ -254,7 +257,7 @@ func runC06(c *Ctx) {
 		checkSelectionConsumed(c, tto)
 		checkSignValidate(c, tto)
 		checkRequestFieldsFromSameNamedParams(c, "C06-R2")
-	checkInputSourceConsumes(c, "C06-R3")
+		checkInputSourceConsumes(c, "C06-R3")
 		checkSignDecisionScope(c, "C06-R4")
 	}
 	checkPublish(c, func(string) string { return "C06-R5" })
@@ -411,6 +414,48 @@ func checkSignValidate(c *Ctx, tto *ssa.Function) {
 		}
 		c.Check("C06-R4", "standard-verify-flags", call.Pos(), ok, "the script engine is not created with txscript.StandardVerifyFlags")
 	}
+	checkPrevOutPerInput(c, "C06-R4")
+}
+
+// checkPrevOutPerInput: the previous-output fetcher handed to the signer and to the validation engine RETAINS the
+// *wire.TxOut pointers it is given (txscript.MultiPrevOutFetcher.AddPrevOut stores them in a map). Each input must
+// therefore get its own object: a pointer to a variable that lives across the iterations of the filling loop makes
+// every outpoint map to the last input's amount and script — the taproot sighash (which commits to all inputs' amounts
+// and scripts) is then computed, by signer and self-check alike, over wrong data, and nodes reject the transaction.
+func checkPrevOutPerInput(c *Ctx, rule string) {
+	p := c.P
+	n := 0
+	for _, pkg := range []string{"wallet/txauthor", "wallet"} {
+		for _, fn := range p.FuncsIn(pkg) {
+			loops := loopsOf(fn)
+			for _, call := range callsNamed(fn, "AddPrevOut") {
+				l := innermostLoopOf(loops, call)
+				if l == nil {
+					continue
+				}
+				n++
+				for _, a := range call.Call.Args {
+					if _, isPtr := a.Type().Underlying().(*types.Pointer); !isPtr {
+						continue
+					}
+					perIter := true
+					why := ""
+					switch x := stripConv(a).(type) {
+					case *ssa.Alloc:
+						if !l.Blocks[x.Block()] {
+							perIter = false
+							why = "variable " + x.Comment + " declared outside the loop"
+						}
+					case *ssa.FieldAddr, *ssa.IndexAddr:
+						// element of a collection indexed by the loop: distinct per input
+					}
+					c.Check(rule, "prev-output-object-per-input:"+fnName(fn), call.Pos(), perIter,
+						fnName(fn)+" registers the address of one "+why+" for every input with the previous-output fetcher, which keeps the pointer: all inputs end up with the last input's amount and script (invalid taproot signatures on multi-input transactions)")
+				}
+			}
+		}
+	}
+	c.Floor(rule, "previous-output registrations inside a loop", n, 1)
 }
 
 func lookupConst(p *Program, pkgPath, name string) constant.Value {
